@@ -24,7 +24,7 @@ var procsOnce sync.Once
 func (Prop) ID() string    { return "C16" }
 func (Prop) Level() string { return "exploration" }
 func (Prop) Rule() string {
-	return "systematic: a case = multiset of 2 (all 136 pairs, workload pairs) or 3-4 (PRNG-sampled, workload multi) operations from {Get,Pick,Add,Remove,RemoveSame(cur|stale),TryRemove,GC,Close,ForEach} on ids a,b x initial cache state (a: empty|live|removed+live, b: empty|live) x try-close verdicts (true|false|false-then-true) x load outcome (ok|first fails|fails iff ctx cancelled); every operation runs in its own goroutine, its start and every harness-owned blocking point it reaches (load, Close, TryClose) is a gate, and a schedule is the order in which gates are released (depth-first enumeration up to the per-case bound, then PRNG-chosen orders). A schedule is non-trivial when at least one load/Close/TryClose gate inside the cache was released; distinct = (case, sequence of released gate names). stress: 8 goroutines x 250 random operations on 2-3 ids with random yields, load errors and try-close verdicts, race build; non-trivial when at least 50 loads, 50 closes and 20 busy try-closes were observed."
+	return "systematic: a case = multiset of 2 (all 136 pairs, workload pairs) or 3-4 (PRNG-sampled, workload multi) operations from {Get,Pick,Add,Remove,RemoveSame(cur|stale),TryRemove,GC,Close,ForEach} on ids a,b x initial cache state (a: empty|live|removed+live, b: empty|live) x try-close verdicts (true|false|false-then-true; workload tryerr: true+error) x load outcome (ok|first fails|fails iff ctx cancelled); every operation runs in its own goroutine, its start and every harness-owned blocking point it reaches (load, Close, TryClose) is a gate, and a schedule is the order in which gates are released (depth-first enumeration up to the per-case bound — quick 40, thorough 600 for pairs; 10/16 for multi — then PRNG-chosen orders; the scheduler releases the next gate only when every operation is finished, parked at a gate, or shown by a goroutine dump to be blocked inside the cache). After the operations a final Close() is issued and the offline oracles run over the event log. A schedule is non-trivial when at least one load/Close/TryClose gate inside the cache was released; distinct = (case, sequence of released gate names). stress: 8 goroutines x 250 random operations on 2-3 ids with random yields, load errors and try-close verdicts, race build; variants: with/without TryRemove, Close in the middle/at the end; non-trivial when at least 50 loads, 50 closes and 20 busy try-closes were observed."
 }
 func (Prop) Assumptions() []string {
 	return []string{
